@@ -189,15 +189,18 @@ copy_an_data(int32 infile_id, int32 outfile_id, int32 ref_in, int32 tag_in, int3
         /* Create the data label for the vgroup identified by its tag and ref number */
         if ((ann_out = ANcreate(an_out, (uint16)tag_out, (uint16)ref_out, type)) == FAIL) {
             printf("Failed to create AN %d of <%s>\n", i, path);
+            ret = -1;
             continue;
         }
         /* Write the annotation  */
         if (ANwriteann(ann_out, buf, ann_length) == FAIL) {
             printf("Failed to write AN %d of <%s>\n", i, path);
+            ret = -1;
         }
         if (ANendaccess(ann_out) == FAIL) {
             printf("Failed to end AN %d of <%s>\n", i, path);
             free(buf);
+            ret = -1;
             continue;
         }
         free(buf);
